@@ -477,6 +477,28 @@ fn dense_div<F: FftField + PrimeField>(rep: &mut Report, rng: &mut Rng, args: &A
             }
         }
     }
+    // division of a non-zero polynomial by the zero polynomial has no quotient: documented to be refused
+    // ("Dividing by zero polynomial"); returning any pair is the violation
+    for k in 0..8usize {
+        let a: Vec<F> = rand_poly(rng, 1 + k * 3);
+        let da = dp(&a);
+        let dz = DensePolynomial::<F>::zero();
+        let sa: SparsePolynomial<F> = da.clone().into();
+        let sz = SparsePolynomial::<F>::zero();
+        rep.class("division by the zero polynomial (must be refused)");
+        let det = || json!({"field": fname, "dividend_len": a.len()});
+        let outcomes = [
+            ("divide_with_q_and_r[dense-dense]", guard(|| DenseOrSparsePolynomial::from(&da).divide_with_q_and_r(&(&dz).into())).is_ok()),
+            ("divide_with_q_and_r[dense-sparse]", guard(|| DenseOrSparsePolynomial::from(&da).divide_with_q_and_r(&(&sz).into())).is_ok()),
+            ("divide_with_q_and_r[sparse-dense]", guard(|| DenseOrSparsePolynomial::from(&sa).divide_with_q_and_r(&(&dz).into())).is_ok()),
+            ("div", guard(|| &da / &dz).is_ok()),
+        ];
+        for (op, accepted) in outcomes {
+            rep.eval(digest(&("div-by-zero", fname, k, op)), true);
+            rep.check(!accepted, || format!("poly/dense/{op}/accepts-zero-divisor"), det);
+        }
+    }
+    rep.require("division by the zero polynomial (must be refused)");
 }
 
 // ------------------------------------------------------------------------------------------------
